@@ -58,6 +58,7 @@ type Result struct {
 
 // X is handed to the scenario for one execution.
 type X struct {
+	mu      sync.Mutex // choice points may be met by goroutines of the code under test (map-order hook)
 	prefix  []int
 	res     Result
 	pk      uint64
@@ -75,6 +76,8 @@ func (x *X) Choose(label string, n int) int { return x.choose(label, n, false) }
 func (x *X) ChooseFree(label string, n int) int { return x.choose(label, n, true) }
 
 func (x *X) choose(label string, n int, free bool) int {
+	x.mu.Lock()
+	defer x.mu.Unlock()
 	if n <= 0 {
 		panic(harnessPanic{fmt.Sprintf("choice point %q with arity %d", label, n)})
 	}
@@ -215,7 +218,7 @@ func runOne(sc *Scenario, prefix []int, keep bool) (res Result) {
 	}()
 	sc.Run(x)
 	if len(x.res.Points) < len(prefix) {
-		x.res.Harness = fmt.Sprintf("replay diverged: execution ended after %d points, prefix has %d", len(x.res.Points), len(prefix))
+		x.res.Harness = fmt.Sprintf("replay diverged: execution ended after %d points, prefix has %d (prefix %s)", len(x.res.Points), len(prefix), vecKey(prefix))
 	}
 	return
 }
